@@ -334,3 +334,32 @@ B('C12', 'history parent check accepts orthogonal', (SC, "if isinstance(state, H
 B('C12', 'memory validation stops at first history state', (SC, "                if memory is None:\n                    continue", "                if memory is None:\n                    break"))
 B('C12', 'last transition of a state dropped', (DD, "            transitions.append(transition)\n", "            if transition_data is not state_data.get('transitions', [])[-1] or len(state_data.get('transitions', [])) == 1:\n                transitions.append(transition)\n"))
 T('C12', 'membership in dict instead of keys()', (SC, "        if state.name in self._states.keys():", "        if state.name in self._states:"))
+
+# ---------------------------------------------------------------- C16
+B('C16', 'F9 reverted', (SC, "        if new_target != '' and new_target is not None:\n            new_target_state = self.state_for(new_target)\n\n        # Rotate using source\n        if new_source != '':\n            transition._source = new_source_state.name", "        if new_source != '':\n            transition._source = new_source_state.name\n        if new_target != '' and new_target is not None:\n            new_target_state = self.state_for(new_target)"))
+B('C16', 'remove_state leaves _children[name]', (SC, "        parent = self._parent.pop(name)\n        self._children.pop(name)\n", "        parent = self._parent.pop(name)\n"))
+B('C16', 'transitions to a removed state kept', (SC, "            if transition.source == state.name or transition.target == state.name:\n                self.remove_transition(transition)", "            if transition.source == state.name:\n                self.remove_transition(transition)"))
+B('C16', 'move_state writes before the descendant test', (SC, "        # Check that parent is not a descendant (or self) of given state\n        if new_parent in [name] + self.descendants_for(name):", "        self._parent[name] = new_parent\n        if new_parent in [name] + self.descendants_for(name):"))
+B('C16', 'iteration over the live children list', (SC, "        for child in list(self.children_for(state.name)):\n            self.remove_state(child)", "        for child in self.children_for(state.name):\n            self.remove_state(child)"))
+B('C16', 'initial not reset on removal', (SC, "            if isinstance(o_state, CompoundState) and o_state.initial == name:\n                o_state.initial = None\n            elif", "            if False:\n                pass\n            elif"))
+B('C16', 'rename writes before the existence check', (SC, "        # Check state exists\n        state = self.state_for(old_name)\n\n        # Change transitions\n        for transition in self.transitions:", "        for transition in self.transitions:"), (SC, "        # Adapt structures\n        parent_name = self._parent[old_name]", "        state = self.state_for(old_name)\n        parent_name = self._parent[old_name]"))
+B('C16', 'add_state registers before the parent check', (SC, "        if not parent:\n            # Check root state", "        self._states[state.name] = state\n        if not parent:\n            # Check root state"), (SC, "        # Save state\n        self._states[state.name] = state\n", "        # Save state\n"))
+B('C16', 'rotate target validated after write', (SC, "        if new_target != '' and new_target is not None:\n            new_target_state = self.state_for(new_target)\n\n        # Rotate using source", "        # Rotate using source"), (SC, "            else:\n                transition._target = new_target_state.name", "            else:\n                transition._target = self.state_for(new_target).name"))
+B('C16', 'memory not reset on move', (SC, "            if isinstance(other_state, HistoryStateMixin):\n                if other_state.memory == name:\n                    other_state.memory = None\n\n    def copy_from_statechart", "    def copy_from_statechart"))
+B('C16', 'move into a descendant allowed', (SC, "        if new_parent in [name] + self.descendants_for(name):", "        if new_parent == name:"))
+B('C16', 'remove_state forgets the parent link', (SC, "        self._children[parent].remove(name)\n\n    def rename_state", "    def rename_state"))
+T('C16', 'extra validation before writes', (SC, "        # Check that both states exist\n        state = self.state_for(name)\n        self.state_for(new_parent)", "        # Check that both states exist\n        state = self.state_for(name)\n        self.state_for(new_parent)\n        self.parent_for(name)"))
+
+# ---------------------------------------------------------------- C17
+B('C17', 'F2 reverted', (SC, "            if transition.source == old_name:\n                transition._source = new_name", "            if transition.source == old_name:\n                if transition.internal:\n                    transition._target = new_name\n                transition._source = new_name"))
+B('C17', 'memory not rewritten', (SC, "            # Change memory (HistoryState)\n            if isinstance(other_state, HistoryStateMixin):\n                if other_state.memory == old_name:\n                    other_state.memory = new_name\n\n            # Adapt parent", "            # Adapt parent"))
+B('C17', '_parent values not rewritten', (SC, "            if self._parent[other_state.name] == old_name:\n                self._parent[other_state.name] = new_name\n", ""))
+B('C17', 'copy without deepcopy', (SC, "statechart_copy = deepcopy(statechart)  # type: Statechart", "statechart_copy = statechart  # type: Statechart"))
+B('C17', 'unconditional _target = new_name', (SC, "            if transition.target == old_name:\n                transition._target = new_name", "            if transition.target is not None:\n                transition._target = new_name"))
+B('C17', 'initial rewritten for the wrong slot', (SC, "                if other_state.initial == old_name:\n                    other_state.initial = new_name", "                if other_state.name == old_name:\n                    other_state.initial = new_name"))
+B('C17', 'state object keeps its old name', (SC, "        # Rename state!\n        state._name = new_name\n", ""))
+B('C17', 'children key not moved', (SC, "        self._children[new_name] = self._children.pop(old_name)\n", ""))
+B('C17', 'copy registers before renaming', (SC, "            statechart_copy.rename_state(name, new_name)\n            self.add_state(statechart_copy.state_for(new_name),\n                           statechart_copy.parent_for(new_name))", "            self.add_state(statechart_copy.state_for(name),\n                           statechart_copy.parent_for(name))\n            statechart_copy.rename_state(name, new_name)"))
+B('C17', 'copy misses incoming transitions', (SC, "            transitions.update(statechart_copy.transitions_from(name))\n            transitions.update(statechart_copy.transitions_to(name))", "            transitions.update(statechart_copy.transitions_from(name))"))
+B('C17', 'only first matching transition renamed', (SC, "            if transition.target == old_name:\n                transition._target = new_name\n", "            if transition.target == old_name:\n                transition._target = new_name\n                break\n"))
+T('C17', 'flipped comparison', (SC, "            if transition.target == old_name:\n                transition._target = new_name", "            if old_name == transition.target:\n                transition._target = new_name"))
